@@ -32,7 +32,7 @@ CORPUS = [
     "D:from t | sort a | window rolling:3 (derive {m = average b}) | group c (take 1)",
     "D:from t | group a (derive {rk = rank b, l = lag 1 b}) | filter rk == 1 | select {a, l}",
     "D:from t | derive {x = b + 1} | group a (sort x | take 1) | derive {y = x * 2} | group y (aggregate {n = count this})",
-    "D:from t | group a (group b (aggregate {n = count this}))",
+    "D:from t | group {a, b} (aggregate {n = count this}) | group a (aggregate {m = max n})",
     "from employees | group dept (sort {-salary} | take 3) | select {dept, name, salary}",
     "from employees | group {dept, title} (aggregate {avg_s = average salary, ct = count this}) | filter ct > 2 | sort {-avg_s}",
     "from employees | derive {gross = salary + benefits} | window range:-5..5 (sort gross | derive {near = count this})",
@@ -42,7 +42,7 @@ CORPUS = [
     "D:from t | join x = (from u | derive {f = d * 2} | take 5) (t.a == x.a && x.f > t.b) | select {t.a, x.f}",
     "D:from t | join (from u | join (from v | select {a, vb = b}) (==a) | select {u.a, u.d, vb}) (==a)",
     "D:from (from t | select {a, b} | take 10) | join side:full (from u | select {a, e}) (==a)",
-    "from a | join b (==id) | join c (==id) | select {a.x, b.y, c.z}",
+    "from a | join b (a.id == b.id) | join c (a.id == c.id) | select {a.x, b.y, c.z}",
     "from a | join side:right b (a.id == b.aid) | group b.kind (aggregate {n = count this})",
     # loop
     "from [{n = 1}] | loop (filter n < 4 | select n = n + 1)",
@@ -64,15 +64,15 @@ CORPUS = [
     # relation literals, from_text
     "from [{a = 1, b = 'x'}, {a = 2, b = 'y'}] | filter a > 1",
     "from [{a = 1}] | join [{a = 1, c = null}] (==a)",
-    "D:from t | join lit = [{a = 1, w = true}] (==a) | select {t.a, lit.w}",
+    "from t | join [{a = 1, w = true}] (t.a == that.a) | select {t.a, w}",
     "from_text format:json '[{\"a\": 1, \"b\": \"x\"}, {\"a\": 2, \"b\": \"y\"}]' | derive {c = a + 1}",
     "from_text format:csv \"a,b\\n1,2\\n3,4\" | aggregate {s = sum a}",
-    "let lt = [{k = 1, v = 'one'}, {k = 2, v = 'two'}]\nfrom lt | join l2 = lt (lt.k == l2.k) | select {lt.v, v2 = l2.v}",
+    "let ltab = [{k = 1, v = 'one'}, {k = 2, v = 'two'}]\nfrom l1 = ltab | join l2 = ltab (l1.k == l2.k) | select {l1.v, v2 = l2.v}",
     # s-string tables and s-string / f-string / case / in / ranges in expressions
     "from s\"SELECT a, b FROM tab\" | filter a > 1 | select {a, b}",
     "from s\"SELECT * FROM tab\" | derive {x = s\"coalesce({a}, 0)\"} | sort x",
     "from t | join s\"SELECT id, w FROM other\" (t.id == that.id)",
-    "let q = s\"SELECT a, b FROM tab\"\nfrom q | join q2 = q (q.a == q2.a) | select {q.a, q2.b}",
+    "let q = s\"SELECT a, b FROM tab\"\nfrom q1 = q | join q2 = q (q1.a == q2.a) | select {q1.a, q2.a}",
     "D:from t | select {k = case [a > 1 => b, a < 0 => 0 - b, true => 0], f = f\"{c}-{a}\", i = (a | in 1..5), s = s\"abs({b})\"}",
     "D:from t | derive {p = a ** 2, q = a // 2, r = (a | as text), n = a ?? b} | filter (c ~= 'x') | take 2..4",
     "D:from t | filter (a | in [1, 2, 3]) | select {a}",
@@ -88,7 +88,7 @@ CORPUS = [
     "D:from t | group {a, b, c} (take 1)",
     "D:from t | select {a} | group a (take 1) | aggregate {n = count this}",
     "D:let f = x y:1 -> x + y\nfrom t | derive {g = f a, h = (f y:2 b)} | filter g > h",
-    "D:from t | select {a, b}\ninto first\n\nfrom first | join u (==a)",
+    "D:from t | select {a, b}\ninto firstq\n\nfrom firstq | join u (firstq.a == u.a)",
     "D:from t | aggregate {mx = max a, mn = min b} | derive {d = mx - mn}",
     "D:from t | derive {s = sum b} | filter s > a",
     "D:from t | filter a > 1 | filter b > 1 | derive {a = a + 1} | derive {a = a + 1} | select {a}",
@@ -549,7 +549,9 @@ def monitor(ctx, label, progs, rng, mutate_p):
 
 def run(ctx):
     br = vlib.standard_proof_obligations(ctx, ["PrqlModel.Props.C16"], [],
-        required_theorems=["lower_wf", "lower_inv", "wf_enables_backend", "wfRq_iff", "wf_append_transform", "scope_visible_subset_defs"])
+        required_theorems=["lower_wf", "lower_inv", "lower_cid_above", "lower_mapping_defined", "wf_enables_backend", "wfRq_iff",
+                           "wf_append_transform", "scope_visible_subset_defs", "wf_defined_before_use", "wf_rejects_invisible",
+                           "emitted_rq_wf_counterexample"])
     ctx.rule = ("the RQ JSON the real resolver emits (harness op rq) for every accepted program of: the relational generator in the profiles "
                 "safe / full / undeclared (fixed-seed corpus + VERIF_SEED tail), a hand-written corpus (nested group/window, joins of "
                 "sub-pipelines, loop, append, several references to one let-table, relation literals, from_text, s-string tables, wildcards), "
@@ -562,14 +564,23 @@ def run(ctx):
     quick = ctx.tier == "quick"
     fixed = random.Random(160916)
     nbad = 0
+    # tie of theorem emitted_rq_wf_counterexample: the two transcribed documents are what the compiler emits today
+    wit = [(DECL + "from t | sort b | select {a} | take 2", "bad not-visible 1; lax ok"),
+           (DECL + "from t | sort b | aggregate {s = sum a} | derive {r = row_number this}", "bad not-visible 1; lax ok")]
+    wa = vh_batch([{"op": "rq", "prql": p} for p, _ in wit])
+    wm = drv_batch([f"wfrq\t{enc(json.dumps(a.get('rq'), ensure_ascii=True))}" for a in wa])
+    same = all(m == e for m, (_, e) in zip(wm, wit))
+    wellformed_now = all(m.startswith("ok") for m in wm)
+    ctx.obligation("tie: witnesses of emitted_rq_wf_counterexample reproduce on the real compiler (or the defect is repaired)",
+                   same or wellformed_now, str(wm))
     corpus = [("corpus", (DECL + p[2:]) if p.startswith("D:") else p) for p in CORPUS]
     nbad += monitor(ctx, "corpus", corpus, fixed, 1.0)
     nbad += monitor(ctx, "repo-queries", query_files(), fixed, 1.0)
     nbad += monitor(ctx, "book", book_programs(), fixed, 0.5)
-    for label, rng, n, prof in [("safe", fixed, 250 if quick else 3000, SAFE), ("full", fixed, 250 if quick else 3000, FULL),
-                                ("undeclared", fixed, 200 if quick else 2000, UNDECL),
-                                ("seed-tail-full", ctx.rng, 250 if quick else 3000, FULL),
-                                ("seed-tail-undeclared", ctx.rng, 100 if quick else 1500, UNDECL)]:
+    for label, rng, n, prof in [("safe", fixed, 1000 if quick else 8000, SAFE), ("full", fixed, 1000 if quick else 8000, FULL),
+                                ("undeclared", fixed, 800 if quick else 6000, UNDECL),
+                                ("seed-tail-full", ctx.rng, 800 if quick else 8000, FULL),
+                                ("seed-tail-undeclared", ctx.rng, 400 if quick else 4000, UNDECL)]:
         cases = [relgen.make_case(rng, **prof) for _ in range(n)]
         nbad += monitor(ctx, label, [("relgen:" + label, c.prql) for c in cases], rng, 0.15 if quick else 0.1)
     ctx.obligation("monitor: every RQ the resolver emitted passes wfRq (all unlisted cases)", not [v for v in ctx.violations if v["kind"] == "failing-input"],
